@@ -13,11 +13,12 @@ RULE = ("real TPCNRunner/RWMRunner objects on generated inputs: d in 1..3, K in 
         "covariances of scale 0.02..0.3, dof in {1,2.5,5,30,1e6}), 3..7 walkers, random assignments, per-cluster sigma in "
         "(0.05,0.99), beta in (0,1], affine prior transform, random linear+quadratic log-likelihood (5%: a -inf hole -> NaN "
         "acceptance path), periodic/reflective index subsets in 30% of the runners; numpy.random.gamma/randn/rand replaced by "
-        "tapes (gamma variates from the requested law, normals; 0/1/2 forced out-of-cube normal vectors per walker to force "
-        "redraws); EXACTLY ONE step is run; per walker the gamma (shape, scale), proposal, quadratic forms, factor, alpha, "
-        "accept bit, new state and the number of normal draws are compared with Model.Kernel.step at Float "
-        "(regime T: |d| <= 1e-9(1+scale); decisions exact unless the margin is < 1e-9), per cluster the adapted sigma. "
-        "Non-trivial = K >= 2 or d >= 2 or a redraw happened.")
+        "tapes (gamma variates from the requested law, normals; for 30% of the walkers with a hard coordinate a forced "
+        "out-of-cube normal vector, which must be REJECTED: evaluated at the current point, alpha = 0, no redraw); EXACTLY ONE "
+        "step is run; per walker the gamma (shape, scale), the candidate returned by _propose, the in-bounds flag, the point "
+        "passed on, factor, alpha, accept bit, new state and the number of normal draws (= 1) are compared with "
+        "Model.Kernel.step at Float (regime T: |d| <= 1e-9(1+scale); decisions exact unless the margin is < 1e-9), per "
+        "cluster the adapted sigma. Non-trivial = K >= 2 or d >= 2 or the proposal left the cube.")
 MODELLED = ["`d @ M @ d`, einsum('ij,ijk,ik->i') and `chol @ z` are evaluated by BLAS/einsum in an unspecified summation order; "
             "the model folds left to right (regime T tolerance)",
             "the user's log_likelihood / prior_transform are uninterpreted: the model receives logL of the proposal from the caller",
@@ -29,8 +30,8 @@ ASSUMPTIONS = ["mode statistics are finite with Sigma positive definite and dof 
                "current states lie in the unit cube (invariant of the sampler: proposals are returned only after check_bounds)",
                "detailed balance is stated per pair of states through the Mahalanobis scalars; one step uses one sigma per cluster "
                "(C03_sigma_fixed_within_step); adaptation across steps is not covered",
-               "KNOWN defects F16 (hard boundary redraw) and F17 (tpCN on folded coordinates) are excluded from the proved statement "
-               "and reported as KNOWN-FINDING lines",
+               "KNOWN defect F17 (tpCN on folded coordinates) is excluded from the proved statement and reported as a KNOWN-FINDING "
+               "line; F16 (hard-boundary redraw) is fixed in /repo (9001dc4) and its witness is part of the corpus",
                "reflective coordinates in d >= 2: proved only for increment densities that are even in each reflective coordinate "
                "(uncorrelated there); with a correlated covariance detailed balance FAILS (finding F21_reflective_correlated, "
                "Lean counter-example C03_reflect_correlated_asymmetric, witness in harness/witnesses.py)"]
@@ -54,7 +55,7 @@ class Tape:
 
     def __init__(self, rng, forced, big):
         self.rng = rng
-        self.forced = forced          # walker -> number of forced out-of-cube normal vectors
+        self.forced = forced          # walker -> 1 if its normal vector is forced far out of the cube
         self.big = big                # walker -> direction of the forced vector
         self.cur = None
         self.gamma_calls = {}         # walker -> (shape, scale, g)
@@ -75,11 +76,8 @@ class Tape:
 
     def randn(self, n):
         lst = self.z_calls.setdefault(self.cur, [])
-        j = len(lst)
-        if j < self.forced.get(self.cur, 0):
+        if len(lst) < self.forced.get(self.cur, 0):
             z = [self.big[self.cur] * (30.0 + 5.0 * self.rng.random()) * (1 if i == 0 else self.rng.uniform(-1, 1)) for i in range(n)]
-        elif j >= 40:
-            z = [0.0] * n          # mu + a (u - mu) resp. u: inside the cube, ends the loop
         else:
             z = [self.rng.gauss(0, 1) for _ in range(n)]
         lst.append(z)
@@ -153,7 +151,7 @@ def _one_step(cfg, rng):
     forced, big = {}, {}
     for k in range(n):
         if strict and rng.random() < 0.3:
-            forced[k] = rng.choice([1, 2])
+            forced[k] = 1
             big[k] = rng.choice([-1.0, 1.0])
     tape = Tape(rng, forced, big)
     seen = {}
@@ -162,7 +160,9 @@ def _one_step(cfg, rng):
 
     def propose(k):
         tape.cur = k
-        return orig_prop(k)
+        p = orig_prop(k)
+        seen.setdefault("cand", {})[k] = np.array(p, dtype=float).copy()
+        return p
 
     def factor(u_prime, logl_prime):
         f = orig_fac(u_prime, logl_prime)
@@ -199,23 +199,10 @@ def _close(a, b, scale):
     return abs(a - b) <= TOL * (1.0 + scale)
 
 
-def _margin(cfg, obs, k):
-    """smallest distance of any candidate's strict coordinate to the cube faces (numpy re-evaluation; used only to classify a
-    draws-count mismatch as a near tie)"""
-    ms, c = obs["ms"], int(cfg["assign"][k])
-    L, mu, u = ms.chol_covariances[c], ms.means[c], cfg["u"][k]
-    sg = obs["sig"][c]
-    best = math.inf
-    for z in obs["tape"].z_calls.get(k, []):
-        z = np.array(z)
-        if cfg["kind"] == "tpcn":
-            s = 1.0 / obs["tape"].gamma_calls[k][2]
-            p = mu + np.sqrt(1.0 - sg ** 2.0) * (u - mu) + sg * np.sqrt(s) * L @ z
-        else:
-            p = u + sg * L @ z
-        for i in obs["strict"]:
-            best = min(best, abs(p[i]), abs(1.0 - p[i]))
-    return best
+def _margin(obs, k):
+    """smallest distance of a hard coordinate of the candidate to the cube faces (to classify an in-bounds mismatch as a near tie)"""
+    cand = obs["seen"]["cand"][k]
+    return min([min(abs(cand[i]), abs(1.0 - cand[i])) for i in obs["strict"]] or [math.inf])
 
 
 def correspond(tier):
@@ -249,14 +236,18 @@ def correspond(tier):
                         f"chol={_rows(ms.chol_covariances[cl])} invcov={_rows(ms.inv_covariances[cl])} "
                         f"nu={f2hex(ms.degrees_of_freedom[cl])} sigma={f2hex(obs['sig'][cl])} beta={f2hex(cfg['beta'])} "
                         f"l={f2hex(obs['logl'][k])} lp={f2hex(seen['logl_prime'][k])} g={f2hex(g[2])} r={f2hex(tape.r[k])} "
-                        f"zs={_rows(zs)} per={flist(per, str)} refl={flist(refl, str)}")
+                        f"z={flist(zs[0] if zs else [], f2hex)} per={flist(per, str)} refl={flist(refl, str)}")
                 lines.append(line)
                 metas.append((cfg, obs, k))
-                redraws = len(zs) - 1
-                c.case(line, cfg["K"] >= 2 or cfg["d"] >= 2 or redraws > 0)
+                from tempest.mcmc import check_bounds
+                cand = seen.get("cand", {}).get(k)
+                inb = bool(check_bounds(cand, cfg["per"], cfg["refl"])) if cand is not None else True
+                obs.setdefault("inb", {})[k] = inb
+                c.case(line, cfg["K"] >= 2 or cfg["d"] >= 2 or not inb)
                 c.count(f"d={cfg['d']}")
                 c.count(f"K={cfg['K']}")
-                c.count("redraws=" + (str(redraws) if redraws < 3 else "3+"))
+                c.count("in_bounds" if inb else "out_of_bounds_rejected")
+                c.count(f"normal_draws={len(zs)}")
                 if per or refl:
                     c.count("folded_coordinates")
                 if cfg["hole"]:
@@ -278,25 +269,22 @@ def correspond(tier):
         for (cfg, obs, k), line, ans in zip(metas, lines, res):
             toks = ans.split(" ")
             seen, tape = obs["seen"], obs["tape"]
-            if len(toks) != 11:
-                if ans == "exhausted" and _margin(cfg, obs, k) < 1e-9:
-                    c.near_ties += 1
-                    continue
+            if len(toks) != 13:
                 c.disagree(input=line, impl="one step", model=ans, kind=kind)
                 continue
             shape, scale, s = (hex2f(t) for t in toks[:3])
             draws = int(toks[3])
-            prop = common.parse_list(toks[4], hex2f)
-            dot, dotp, fac, alpha = (hex2f(t) for t in toks[5:9])
-            acc = toks[9] == "1"
-            new_u = common.parse_list(toks[10], hex2f)
-            impl = {"u_prime": seen["u_prime"][k].tolist(), "factor": float(seen["factor"][k]), "alpha": float(seen["alpha"][k]),
+            cand = common.parse_list(toks[4], hex2f)
+            inb = toks[5] == "1"
+            prop = common.parse_list(toks[6], hex2f)
+            dot, dotp, fac, alpha = (hex2f(t) for t in toks[7:11])
+            acc = toks[11] == "1"
+            new_u = common.parse_list(toks[12], hex2f)
+            impl = {"candidate": seen["cand"][k].tolist(), "in_bounds": obs["inb"][k], "u_prime": seen["u_prime"][k].tolist(),
+                    "factor": float(seen["factor"][k]), "alpha": float(seen["alpha"][k]),
                     "draws": len(tape.z_calls.get(k, [])), "new_u": obs["new_u"][k].tolist()}
             bad = []
             if draws != impl["draws"]:
-                if _margin(cfg, obs, k) < 1e-9:
-                    c.near_ties += 1
-                    continue
                 bad.append("draws")
             if kind == "tpcn" and k in tape.gamma_calls:
                 gsh, gsc, _ = tape.gamma_calls[k]
@@ -305,9 +293,16 @@ def correspond(tier):
                     bad.append("gamma_shape")
                 if not _close(gsc, scale, abs(scale)):
                     bad.append("gamma_scale")
+            if not bad and (len(cand) != cfg["d"] or not all(_close(a, b, abs(b)) for a, b in zip(impl["candidate"], cand))):
+                bad.append("candidate")
+            if not bad and inb != impl["in_bounds"]:
+                if _margin(obs, k) < 1e-9:
+                    c.near_ties += 1
+                    continue
+                bad.append("in_bounds")
             if not bad:
                 if len(prop) != cfg["d"] or not all(_close(a, b, abs(b)) for a, b in zip(impl["u_prime"], prop)):
-                    bad.append("proposal")
+                    bad.append("proposal_passed_on")
                 fscale = abs(fac) + abs(dot) + abs(dotp)
                 if not _close(impl["factor"], fac, fscale):
                     bad.append("factor")
@@ -317,7 +312,7 @@ def correspond(tier):
                     bad.append("alpha")
             if not bad:
                 r = tape.r[k]
-                if abs(r - impl["alpha"]) < 1e-9 or abs(r - alpha) < 1e-9:
+                if impl["in_bounds"] and (abs(r - impl["alpha"]) < 1e-9 or abs(r - alpha) < 1e-9):
                     c.near_ties += 1
                 else:
                     impl_acc = bool(r < impl["alpha"])
@@ -490,12 +485,11 @@ CELLS_2D = [
 
 
 def known_id(kernel, boundary, target):
-    """the two recorded defects: any kernel x hard boundary (F16), tpCN x folded coordinate (F17).  The `interior` target keeps
-    all mass and (with the narrow mode) all proposals away from the faces, so no boundary rule can be blamed there."""
+    """the recorded defect of the 1-D cells: tpCN x folded coordinate (F17).  Hard-boundary cells are no longer excused (F16 is
+    fixed: out-of-cube proposals are rejected), a failure there is a new violation.  The `interior` target keeps all mass and
+    (with the narrow mode) all proposals away from the faces, so no boundary rule can be blamed there."""
     if target == "interior":
         return None
-    if boundary == "hard":
-        return "F16_hard_boundary_redraw"
     if kernel == "tpcn" and boundary in ("periodic", "reflective"):
         return "F17_tpcn_fold"
     return None
@@ -503,11 +497,15 @@ def known_id(kernel, boundary, target):
 
 def _cells(tier):
     """(detectors, rest): `detectors` are the cells where no recorded defect can be blamed — interior targets (no boundary can
-    intervene) and RWM on folded coordinates; `rest` is the full boundary grid (hard and tpCN-fold cells carry a known_id)."""
+    intervene), hard boundaries (both kernels) and RWM on folded coordinates; `rest` is the remaining boundary grid (its
+    tpCN-fold cells carry the known_id F17)."""
     det = []
     for kernel in ("tpcn", "rwm"):
         det.append((kernel, "hard", 0.5, 0.5, "interior", 1))
         det.append((kernel, "hard", 0.9, 0.5, "interior", 2))
+    for kernel in ("rwm", "tpcn"):
+        for target in ("uniform", "tilted"):
+            det.append((kernel, "hard", 0.5, 1.0, target, 1))
     for boundary in ("periodic", "reflective"):
         for target in ("tilted", "uniform", "corner"):
             det.append(("rwm", boundary, 0.5, 1.0, target, 1))
